@@ -2573,4 +2573,469 @@ theorem Inv.extendV {σ : State} {T : List V} {k : Nat} {src : V} (inv : Inv σ 
   · exact Or.inr ⟨σ', h1, inv', by rw [hs', hs0]⟩
 
 
+
+
+/-! ## statements -/
+
+/-- the const walk that also reports the Var it ends at: total on states satisfying the invariant -/
+theorem Inv.resolveConstLoc {σ : State} {T : List V} (inv : Inv σ T) : ∀ (steps : List Step) (l : Option Loc) (v : V),
+    Held σ T v →
+    (∃ e, Var.resolveConstLoc σ.heap l v steps = .error e ∧ e = .nopath) ∨
+    ∃ r, Var.resolveConstLoc σ.heap l v steps = .ok r
+  | [], l, v, _ => Or.inr ⟨(l, v), rfl⟩
+  | s :: rest, l, v, hv => by
+    simp only [Var.resolveConstLoc]
+    have key : (∃ e, stepConstLoc σ.heap v s = .error e ∧ e = .nopath) ∨
+        ∃ l1 w, stepConstLoc σ.heap v s = .ok (l1, w) ∧ Held σ T w := by
+      unfold stepConstLoc
+      cases s with
+      | idx i =>
+        cases v with
+        | arr id =>
+          have hin : V.arr id ∈ σ.slots ++ T ∨ V.arr id ∈ hvals σ.heap := by
+            rcases hv with h0 | h0
+            · simp [handleOf] at h0
+            · exact h0
+          obtain ⟨b, hb, _⟩ := inv.wf.live _ hin id rfl
+          simp only [hb]
+          cases hi : b.items[i]? with
+          | none => left; exact ⟨_, rfl, rfl⟩
+          | some kv =>
+            right
+            exact ⟨_, kv.2, rfl, Held.of_mem_block hb (List.mem_map_of_mem (List.mem_of_getElem? hi))⟩
+        | obj _ => right; exact ⟨none, V.none, rfl, Or.inl rfl⟩
+        | none => right; exact ⟨none, V.none, rfl, Or.inl rfl⟩
+        | null => right; exact ⟨none, V.none, rfl, Or.inl rfl⟩
+        | bool _ => right; exact ⟨none, V.none, rfl, Or.inl rfl⟩
+        | int _ => right; exact ⟨none, V.none, rfl, Or.inl rfl⟩
+        | num _ => right; exact ⟨none, V.none, rfl, Or.inl rfl⟩
+        | flt _ => right; exact ⟨none, V.none, rfl, Or.inl rfl⟩
+        | sstr _ => right; exact ⟨none, V.none, rfl, Or.inl rfl⟩
+        | str _ => right; exact ⟨none, V.none, rfl, Or.inl rfl⟩
+      | key k =>
+        cases v with
+        | obj id =>
+          have hin : V.obj id ∈ σ.slots ++ T ∨ V.obj id ∈ hvals σ.heap := by
+            rcases hv with h0 | h0
+            · simp [handleOf] at h0
+            · exact h0
+          obtain ⟨b, hb, hk⟩ := inv.wf.live _ hin id rfl
+          simp only [isObjV] at hk
+          simp only [hb]
+          obtain ⟨r, hidx, hspec⟩ := AslProofs.Map.indexOf_spec cmpB_strict b.items k (inv.sorted id b hb hk)
+          right
+          simp only [keyPos, hidx]
+          by_cases hr0 : r ≥ 0
+          · simp only [hr0, if_true]
+            obtain ⟨hlt, _⟩ := hspec.1 hr0
+            simp only [List.getElem?_eq_getElem hlt]
+            exact ⟨_, _, rfl, Held.of_mem_block hb (List.mem_map_of_mem (List.getElem_mem hlt))⟩
+          · simp only [hr0, if_false]
+            exact ⟨none, V.none, rfl, Or.inl rfl⟩
+        | arr _ => right; exact ⟨none, V.none, rfl, Or.inl rfl⟩
+        | none => right; exact ⟨none, V.none, rfl, Or.inl rfl⟩
+        | null => right; exact ⟨none, V.none, rfl, Or.inl rfl⟩
+        | bool _ => right; exact ⟨none, V.none, rfl, Or.inl rfl⟩
+        | int _ => right; exact ⟨none, V.none, rfl, Or.inl rfl⟩
+        | num _ => right; exact ⟨none, V.none, rfl, Or.inl rfl⟩
+        | flt _ => right; exact ⟨none, V.none, rfl, Or.inl rfl⟩
+        | sstr _ => right; exact ⟨none, V.none, rfl, Or.inl rfl⟩
+        | str _ => right; exact ⟨none, V.none, rfl, Or.inl rfl⟩
+    rcases key with ⟨e, h1, he⟩ | ⟨l1, w, h1, hw⟩
+    · left; exact ⟨e, by simp [h1], he⟩
+    · simp only [h1]
+      exact Inv.resolveConstLoc inv rest l1 w hw
+
+theorem Inv.cloc {σ : State} {T : List V} (inv : Inv σ T) (q : Path) :
+    (∃ e, Var.cloc σ q = .error e ∧ e = .nopath) ∨ ∃ r, Var.cloc σ q = .ok r := by
+  unfold Var.cloc
+  rcases inv.resolveConstLoc q.steps (some (.slot q.root)) _ (slotV_held T q.root) with ⟨e, h1, he⟩ | ⟨r, h1⟩
+  · left; exact ⟨e, by simp [h1, Except.map], he⟩
+  · right; exact ⟨r.1, by simp [h1, Except.map]⟩
+
+theorem Inv.cycleGuard {σ : State} {T : List V} (inv : Inv σ T) (t : Loc) {src : V} (hs : LiveV σ.heap src) :
+    (∃ e, Var.cycleGuard σ.heap (parentOf t) src = .error e ∧ (e = .fuel ∨ e = .cyclic)) ∨
+    (Var.cycleGuard σ.heap (parentOf t) src = .ok () ∧ ∀ id, parentOf t = some id → handleOf src ≠ some id) := by
+  unfold Var.cycleGuard
+  rcases inv.wouldCycle t hs with h1 | h1 | ⟨h1, h2⟩
+  · left; exact ⟨_, by rw [h1], Or.inl rfl⟩
+  · left; exact ⟨_, by rw [h1], Or.inr rfl⟩
+  · right; exact ⟨by rw [h1], h2⟩
+
+/-- the errors with which a statement may be refused -/
+def Refusal (e : Err) : Prop :=
+  e = .sharedGrowth ∨ e = .cyclic ∨ e = .nopath ∨ e = .badarg ∨ e = .fuel
+
+/-- outcome of a statement body on a state satisfying the invariant -/
+def BodyOK (σ : State) (r : Except Err State) : Prop :=
+  (∃ e, r = .error e ∧ Refusal e) ∨ ∃ σ', r = .ok σ' ∧ Inv σ' [] ∧ σ'.slots.length = σ.slots.length
+
+theorem Inv.opSetV {σ : State} {t : Loc} (q : Path) (inv : Inv σ []) (hl : ValidLoc σ t) : BodyOK σ (Var.opSetV σ t q) := by
+  unfold Var.opSetV
+  rcases inv.cget q with ⟨e, h1, he⟩ | ⟨src, h1, hsrc⟩
+  · left; exact ⟨e, by rw [h1], by subst he; exact Or.inr (Or.inr (Or.inl rfl))⟩
+  · rw [h1]
+    have hlive := Held.live inv hsrc
+    rcases inv.cycleGuard t hlive with ⟨e, h2, he⟩ | ⟨h2, hne⟩
+    · left; refine ⟨e, by simp only [h2], ?_⟩
+      rcases he with he | he <;> subst he
+      · exact Or.inr (Or.inr (Or.inr (Or.inr rfl)))
+      · exact Or.inr (Or.inl rfl)
+    · simp only [h2]
+      obtain ⟨σ', ha, inv', hs⟩ := inv.assignV hl hlive hne
+      right; exact ⟨σ', ha, inv', hs⟩
+
+
+theorem Inv.appGuard {σ : State} {t : Loc} (q : Path) {src v : V} (inv : Inv σ []) (hs : LiveV σ.heap src) :
+    (∃ e, Var.appGuard σ t q src v = .error e ∧ Refusal e) ∨
+    (Var.appGuard σ t q src v = .ok () ∧ ∀ id, v = .arr id → handleOf src ≠ some id) := by
+  unfold Var.appGuard
+  cases v with
+  | arr id =>
+    simp only []
+    obtain ⟨f, hf⟩ := travFuel_pos σ.heap
+    rcases inv.reaches_benign id (travFuel σ.heap) src hs with ⟨b, hb⟩ | hb
+    · rw [hb]
+      cases b with
+      | true => left; exact ⟨_, rfl, Or.inr (Or.inl rfl)⟩
+      | false =>
+        right
+        refine ⟨rfl, fun id' hid' => ?_⟩
+        cases hid'
+        rw [hf] at hb
+        exact reaches_false_ne hb
+    · rw [hb]; left; exact ⟨_, rfl, Or.inr (Or.inr (Or.inr (Or.inr rfl)))⟩
+  | none =>
+    simp only []
+    rcases inv.cycleGuard t hs with ⟨e, h2, he⟩ | ⟨h2, _⟩
+    · left; refine ⟨e, by simp only [h2], ?_⟩
+      rcases he with he | he <;> subst he
+      · exact Or.inr (Or.inr (Or.inr (Or.inr rfl)))
+      · exact Or.inr (Or.inl rfl)
+    · simp only [h2]
+      rcases inv.cloc q with ⟨e, h3, he⟩ | ⟨r, h3⟩
+      · left; exact ⟨e, by simp only [h3], by subst he; exact Or.inr (Or.inr (Or.inl rfl))⟩
+      · simp only [h3]
+        by_cases hsl : r = some t
+        · left; simp only [hsl, if_true]; exact ⟨_, rfl, Or.inr (Or.inl rfl)⟩
+        · right; exact ⟨by simp only [hsl, if_false], fun id h => by cases h⟩
+  | null => right; exact ⟨rfl, fun id h => by cases h⟩
+  | bool _ => right; exact ⟨rfl, fun id h => by cases h⟩
+  | int _ => right; exact ⟨rfl, fun id h => by cases h⟩
+  | num _ => right; exact ⟨rfl, fun id h => by cases h⟩
+  | flt _ => right; exact ⟨rfl, fun id h => by cases h⟩
+  | sstr _ => right; exact ⟨rfl, fun id h => by cases h⟩
+  | str _ => right; exact ⟨rfl, fun id h => by cases h⟩
+  | obj _ => right; exact ⟨rfl, fun id h => by cases h⟩
+
+theorem Inv.opApp {σ : State} {t : Loc} (q : Path) (inv : Inv σ []) (hl : ValidLoc σ t) : BodyOK σ (Var.opApp true σ t q) := by
+  unfold Var.opApp
+  rcases inv.cget q with ⟨e, h1, he⟩ | ⟨src, h1, hsrc⟩
+  · left; exact ⟨e, by rw [h1], by subst he; exact Or.inr (Or.inr (Or.inl rfl))⟩
+  · rw [h1]
+    have hlive := Held.live inv hsrc
+    obtain ⟨v, hr, _⟩ := readLoc_valid hl []
+    simp only [hr]
+    rcases inv.appGuard (t := t) q (v := v) hlive with ⟨e, h2, he⟩ | ⟨h2, hne⟩
+    · left; exact ⟨e, by simp only [h2], he⟩
+    · simp only [h2]
+      rcases inv.appendAt hl hlive (fun id hid => hne id (by rw [hr] at hid; cases hid; rfl)) with h3 | ⟨σ', h3, inv', hs⟩
+      · left; exact ⟨_, h3, Or.inl rfl⟩
+      · right; exact ⟨σ', h3, inv', hs⟩
+
+theorem Inv.anyReaches_benign {σ : State} {T : List V} (inv : Inv σ T) (t : Nat) {id : Nat} {b : Block}
+    (hb : getB σ.heap id = .ok b) :
+    (∃ r, anyReaches σ.heap t b.items = .ok r) ∨ anyReaches σ.heap t b.items = .error .fuel := by
+  unfold anyReaches
+  apply anyE_benign
+  intro kv hkv
+  by_cases hx : kv.2 = V.none
+  · simp only [hx, if_true]; exact Or.inl ⟨false, rfl⟩
+  · simp only [hx, if_false]
+    exact inv.reaches_benign t _ kv.2 (inv.wf.liveV (Or.inr (mem_hvals_of_getB hb (List.mem_map_of_mem hkv))))
+
+theorem Inv.extGuard {σ : State} {t : Loc} {src v : V} (inv : Inv σ []) (hs : LiveV σ.heap src) (hv : LiveV σ.heap v) :
+    (∃ e, Var.extGuard true σ t src v = .error e ∧ Refusal e) ∨ Var.extGuard true σ t src v = .ok () := by
+  have fuelR : Refusal .fuel := Or.inr (Or.inr (Or.inr (Or.inr rfl)))
+  have cycR : Refusal .cyclic := Or.inr (Or.inl rfl)
+  unfold Var.extGuard
+  by_cases hobj : ∃ sid, src = V.obj sid
+  · obtain ⟨sid, rfl⟩ := hobj
+    obtain ⟨sb, hsb, _⟩ := hs sid rfl
+    cases v with
+    | obj id =>
+      obtain ⟨b, hb, _⟩ := hv id rfl
+      simp only [hb, hsb]
+      rcases inv.anyReaches_benign id hsb with ⟨r, h1⟩ | h1
+      · rw [h1]
+        cases r with
+        | true => left; exact ⟨_, rfl, cycR⟩
+        | false =>
+          simp only []
+          split
+          · left; exact ⟨_, rfl, Or.inl rfl⟩
+          · right; rfl
+      · rw [h1]; left; exact ⟨_, rfl, fuelR⟩
+    | none =>
+      simp only []
+      cases hp : parentOf t with
+      | none => right; rfl
+      | some pid =>
+        simp only []
+        by_cases he : pid = sid
+        · left; simp only [he, if_true]; exact ⟨_, rfl, cycR⟩
+        · simp only [he, if_false, hsb]
+          rcases inv.anyReaches_benign pid hsb with ⟨r, h1⟩ | h1
+          · rw [h1]
+            cases r with
+            | true => left; exact ⟨_, rfl, cycR⟩
+            | false => right; rfl
+          · rw [h1]; left; exact ⟨_, rfl, fuelR⟩
+    | null => right; rfl
+    | bool _ => right; rfl
+    | int _ => right; rfl
+    | num _ => right; rfl
+    | flt _ => right; rfl
+    | sstr _ => right; rfl
+    | str _ => right; rfl
+    | arr _ => right; rfl
+  · right
+    cases v <;> cases src <;> first | rfl | (exfalso; exact hobj ⟨_, rfl⟩)
+
+theorem Inv.opExtend {σ : State} {k : Nat} (q : Path) (inv : Inv σ []) (hk : k < σ.slots.length) :
+    BodyOK σ (Var.opExtend true σ (.slot k) q) := by
+  have hl : ValidLoc σ (.slot k) := hk
+  unfold Var.opExtend
+  rcases inv.cget q with ⟨e, h1, he⟩ | ⟨src, h1, hsrc⟩
+  · left; exact ⟨e, by rw [h1], by subst he; exact Or.inr (Or.inr (Or.inl rfl))⟩
+  · rw [h1]
+    have hlive := Held.live inv hsrc
+    obtain ⟨v, hr, hheld⟩ := readLoc_valid hl []
+    simp only [hr]
+    rcases inv.extGuard (t := .slot k) hlive (inv.wf.liveV hheld) with ⟨e, h2, he⟩ | h2
+    · left; exact ⟨e, by simp only [h2], he⟩
+    · simp only [h2]
+      rcases inv.extendV hk hlive with ⟨e, h3, he⟩ | ⟨σ', h3, inv', hs⟩
+      · left; refine ⟨e, h3, ?_⟩
+        rcases he with he | he | he <;> subst he
+        · exact Or.inl rfl
+        · exact Or.inr (Or.inr (Or.inr (Or.inl rfl)))
+        · exact Or.inr (Or.inl rfl)
+      · right; exact ⟨σ', h3, inv', hs⟩
+
+/-- histories in which `extend` is applied to root variables only (the case covered by the proof) -/
+def RootExtend : Op → Prop
+  | .extend p _ => p.steps = []
+  | _ => True
+
+theorem Lit.toV_scalar (l : Lit) : handleOf l.toV = none := by
+  cases l with
+  | int i => rfl
+  | uns u => simp only [Lit.toV, mkUnsigned]; split <;> rfl
+  | long i => rfl
+  | dbl d => rfl
+  | flt d => rfl
+  | bool b => rfl
+  | str s => simp only [Lit.toV, mkString]; split <;> rfl
+
+
+theorem BodyOK.of_ok {σ : State} {r : Except Err State}
+    (h : ∃ σ', r = .ok σ' ∧ Inv σ' [] ∧ σ'.slots.length = σ.slots.length) : BodyOK σ r := Or.inr h
+
+theorem resolveMut_nil (σ : State) (l : Loc) : Var.resolveMut true σ l [] = (σ, .ok l) := rfl
+
+/-- the body of a statement whose target is resolved -/
+theorem Inv.opBody {σ : State} {t : Loc} (op : Op) (inv : Inv σ []) (hl : ValidLoc σ t)
+    (hext : ∀ p q, op = .extend p q → ∃ k, t = .slot k) : BodyOK σ (Var.opBody true σ t op) := by
+  have sg : Refusal .sharedGrowth := Or.inl rfl
+  have ba : Refusal .badarg := Or.inr (Or.inr (Or.inr (Or.inl rfl)))
+  cases op with
+  | setLit p l =>
+    cases l with
+    | str s => exact Or.inr (inv.assignString hl)
+    | int i => exact Or.inr (inv.assignScalar hl rfl)
+    | uns u => exact Or.inr (inv.assignScalar hl (Lit.toV_scalar (.uns u)))
+    | long i => exact Or.inr (inv.assignScalar hl rfl)
+    | dbl d => exact Or.inr (inv.assignScalar hl rfl)
+    | flt d => exact Or.inr (inv.assignScalar hl rfl)
+    | bool b => exact Or.inr (inv.assignScalar hl rfl)
+  | setType p ty =>
+    rcases inv.assignType (ty := ty) hl with h | h
+    · exact Or.inl ⟨_, h, ba⟩
+    · exact Or.inr h
+  | setV p q => exact inv.opSetV q hl
+  | app p q => exact inv.opApp q hl
+  | appLit p l =>
+    rcases inv.appendAt (src := l.toV) hl (fun id hid => by rw [Lit.toV_scalar] at hid; cases hid)
+      (fun id _ => by rw [Lit.toV_scalar]; intro h; cases h) with h | h
+    · exact Or.inl ⟨_, h, sg⟩
+    · exact Or.inr h
+  | resize p n =>
+    rcases inv.resizeV (n := n) hl with h | h
+    · exact Or.inl ⟨_, h, sg⟩
+    · exact Or.inr h
+  | removeAt p i n =>
+    simp only [Var.opBody]
+    split
+    · exact Or.inr ⟨σ, rfl, inv, rfl⟩
+    · exact Or.inr (inv.removeAtV hl)
+  | removeKey p k => exact Or.inr (inv.removeKeyV hl)
+  | clear p => exact Or.inr (inv.clearV hl)
+  | extend p q =>
+    obtain ⟨k, rfl⟩ := hext p q rfl
+    exact inv.opExtend q hl
+  | clone k q => exact Or.inl ⟨_, rfl, ba⟩
+  | copy k q => exact Or.inl ⟨_, rfl, ba⟩
+  | drop k => exact Or.inl ⟨_, rfl, ba⟩
+  | ctorLit k l => exact Or.inl ⟨_, rfl, ba⟩
+  | ctorType k ty => exact Or.inl ⟨_, rfl, ba⟩
+  | ctorKV k key q => exact Or.inl ⟨_, rfl, ba⟩
+
+theorem replaceSlot_badarg {σ : State} {k : Nat} {v : V} (hk : ¬ k < σ.slots.length) :
+    Var.replaceSlot σ k v = .error .badarg := by
+  unfold Var.replaceSlot; simp [hk]
+
+/-- replacing a root by an owned value -/
+theorem Inv.replaceRoot {σ σ0 : State} {k : Nat} {v : V} (inv : Inv σ [v]) (hs : σ.slots.length = σ0.slots.length) :
+    BodyOK σ0 (Var.replaceSlot σ k v) := by
+  by_cases hk : k < σ.slots.length
+  · obtain ⟨σ', h1, inv', hs'⟩ := inv.replaceSlot hk
+    exact Or.inr ⟨σ', h1, inv', by rw [hs', hs]⟩
+  · exact Or.inl ⟨_, replaceSlot_badarg hk, Or.inr (Or.inr (Or.inr (Or.inl rfl)))⟩
+
+theorem Inv.rootOp {σ : State} (op : Op) (inv : Inv σ []) : BodyOK σ (Var.rootOp σ op) := by
+  have ba : Refusal .badarg := Or.inr (Or.inr (Or.inr (Or.inl rfl)))
+  have np : Refusal .nopath := Or.inr (Or.inr (Or.inl rfl))
+  cases op with
+  | clone k q =>
+    simp only [Var.rootOp, Var.opClone]
+    rcases inv.cget q with ⟨e, h1, he⟩ | ⟨src, h1, hsrc⟩
+    · rw [h1]; subst he; exact Or.inl ⟨_, rfl, np⟩
+    · rw [h1]
+      rcases cloneOK (travFuel σ.heap) σ src [] inv (Held.live inv hsrc) with h2 | ⟨h', c, h2, inv2, _⟩
+      · simp only [h2]; exact Or.inl ⟨_, rfl, Or.inr (Or.inr (Or.inr (Or.inr rfl)))⟩
+      · simp only [h2]
+        exact Inv.replaceRoot inv2 rfl
+  | copy k q =>
+    simp only [Var.rootOp, Var.opCopy]
+    rcases inv.cget q with ⟨e, h1, he⟩ | ⟨src, h1, hsrc⟩
+    · rw [h1]; subst he; exact Or.inl ⟨_, rfl, np⟩
+    · rw [h1]
+      obtain ⟨h', h2, inv2, _⟩ := inv.copyV hsrc
+      simp only [h2]
+      exact Inv.replaceRoot inv2 rfl
+  | drop k =>
+    simp only [Var.rootOp]
+    exact Inv.replaceRoot ((Inv.scalar rfl).mpr inv) rfl
+  | ctorLit k l =>
+    simp only [Var.rootOp]
+    exact Inv.replaceRoot ((Inv.scalar (Lit.toV_scalar l)).mpr inv) rfl
+  | ctorType k ty =>
+    simp only [Var.rootOp, Var.opCtorType]
+    rcases inv.mkType ty with h1 | ⟨h', v, h1, inv1, _, _⟩
+    · rw [h1]; exact Or.inl ⟨_, rfl, ba⟩
+    · rw [h1]
+      exact Inv.replaceRoot inv1 rfl
+  | ctorKV k key q =>
+    simp only [Var.rootOp, Var.opCtorKV]
+    rcases inv.cget q with ⟨e, h1, he⟩ | ⟨src, h1, hsrc⟩
+    · rw [h1]; subst he; exact Or.inl ⟨_, rfl, np⟩
+    · rw [h1]
+      obtain ⟨h', h2, inv2, _⟩ := inv.copyV hsrc
+      simp only [h2, allocB]
+      have inv3 := Inv.alloc (σ := { σ with heap := h' }) (T := [])
+        (b := { emptyBlock true with items := [(key, src)] }) (by simpa [bvals] using inv2) rfl
+        (by intro _; simp [SortedItems, AslProofs.Map.Sorted])
+      exact Inv.replaceRoot inv3 rfl
+  | setLit p l => exact Or.inl ⟨_, rfl, ba⟩
+  | setType p ty => exact Or.inl ⟨_, rfl, ba⟩
+  | setV p q => exact Or.inl ⟨_, rfl, ba⟩
+  | app p q => exact Or.inl ⟨_, rfl, ba⟩
+  | appLit p l => exact Or.inl ⟨_, rfl, ba⟩
+  | resize p n => exact Or.inl ⟨_, rfl, ba⟩
+  | removeAt p i n => exact Or.inl ⟨_, rfl, ba⟩
+  | removeKey p k => exact Or.inl ⟨_, rfl, ba⟩
+  | clear p => exact Or.inl ⟨_, rfl, ba⟩
+  | extend p q => exact Or.inl ⟨_, rfl, ba⟩
+
+/-- result of a statement: executed, or refused by one of the guards -/
+def Safe : Except Err Unit → Prop
+  | .ok _ => True
+  | .error e => Refusal e
+
+/-- **one statement**: from a state satisfying the invariant, a statement never touches released or out-of-range
+storage (it is executed, or refused by a guard), and the invariant holds afterwards -/
+theorem Inv.applyOp {σ : State} (op : Op) (inv : Inv σ []) (hop : RootExtend op) :
+    Inv (Var.applyOp true σ op).1 [] ∧ (Var.applyOp true σ op).1.slots.length = σ.slots.length ∧
+    Safe (Var.applyOp true σ op).2 := by
+  unfold Var.applyOp
+  cases htgt : targetOf op with
+  | none =>
+    simp only []
+    rcases inv.rootOp op with ⟨e, h1, he⟩ | ⟨σ', h1, inv', hs⟩
+    · rw [h1]; exact ⟨inv, rfl, he⟩
+    · rw [h1]; exact ⟨inv', hs, trivial⟩
+  | some p =>
+    simp only []
+    by_cases hroot : p.root < σ.slots.length
+    · simp only [hroot, if_true]
+      obtain ⟨σ1, r, h1, inv1, hs1, hr⟩ := Inv.resolveMut (T := []) p.steps σ (.slot p.root) inv hroot
+      rw [h1]
+      rcases hr with ⟨e, rfl, he⟩ | ⟨t, rfl, hl⟩
+      · refine ⟨inv1, hs1, ?_⟩
+        rcases he with he | he <;> subst he
+        · exact Or.inl rfl
+        · exact Or.inr (Or.inr (Or.inr (Or.inl rfl)))
+      · simp only []
+        have hext : ∀ p' q, op = .extend p' q → ∃ k, t = .slot k := by
+          intro p' q he
+          subst he
+          simp only [targetOf, Option.some.injEq] at htgt
+          subst htgt
+          simp only [RootExtend] at hop
+          rw [hop, resolveMut_nil] at h1
+          cases h1
+          exact ⟨_, rfl⟩
+        rcases inv1.opBody op hl hext with ⟨e, h2, he⟩ | ⟨σ2, h2, inv2, hs2⟩
+        · rw [h2]; exact ⟨inv1, hs1, he⟩
+        · rw [h2]; exact ⟨inv2, by rw [hs2, hs1], trivial⟩
+    · simp only [hroot, if_false]
+      refine ⟨inv, ?_, Or.inr (Or.inr (Or.inr (Or.inl rfl)))⟩
+      trivial
+
+/-- results of the statements of a history, in order -/
+def results (guard : Bool) : State → List Op → List (Except Err Unit)
+  | _, [] => []
+  | σ, op :: rest => (Var.applyOp guard σ op).2 :: results guard (Var.applyOp guard σ op).1 rest
+
+theorem Inv.run {σ : State} (inv : Inv σ []) : ∀ (ops : List Op) (σ0 : State), σ0 = σ → (∀ op ∈ ops, RootExtend op) →
+    Inv (run true σ0 ops) [] ∧ (run true σ0 ops).slots.length = σ0.slots.length ∧ ∀ r ∈ results true σ0 ops, Safe r := by
+  intro ops
+  induction ops generalizing σ with
+  | nil => intro σ0 h _; subst h; exact ⟨inv, rfl, by simp [results]⟩
+  | cons op rest ih =>
+    intro σ0 h hops
+    subst h
+    obtain ⟨inv1, hs1, hsafe⟩ := inv.applyOp op (hops op (by simp))
+    obtain ⟨inv2, hs2, hall⟩ := ih inv1 _ rfl (fun o ho => hops o (by simp [ho]))
+    refine ⟨inv2, by rw [Var.run, hs2, hs1], ?_⟩
+    intro r hr
+    simp only [results, List.mem_cons] at hr
+    rcases hr with rfl | hr
+    · exact hsafe
+    · exact hall r hr
+
+theorem Inv.init (n : Nat) : Inv (initState n) [] := by
+  refine ⟨⟨?_, ?_, ?_⟩, ?_, ?_⟩
+  · intro v hv id hid
+    simp only [initState, List.append_nil, hvals_nil] at hv
+    rcases hv with hv | hv
+    · rw [List.eq_of_mem_replicate hv] at hid; cases hid
+    · cases hv
+  · intro id b hb; simp [initState, getB] at hb
+  · intro id b hb; simp [initState, getB] at hb
+  · intro id b hb; simp [initState, getB] at hb
+  · intro id b hb; simp [initState, getB] at hb
+
+
 end AslModel.Var
